@@ -209,6 +209,42 @@ def disk_prefix_law(ctx):
     finally:
         shutil.rmtree(d, ignore_errors=True)
 
+def memory_partial_law(ctx):
+    """a getter whose stream fails part-way leaves no entry in a MemoryCacher (alone or under a ConcurrentCacher); the next caller computes the full value"""
+    import coba.context.cachers as cc
+    full = ["l%d" % i for i in range(5)]
+    for wrap in (False, True):
+        for cut in range(0, len(full) + 1):
+            for kind in ("generator", "iterator"):
+                inner = cc.MemoryCacher()
+                cache = cc.ConcurrentCacher(inner, [0] * 2**16, threading.Lock()) if wrap else inner
+                ctx.count("memory-partial:%s" % ("concurrent" if wrap else "plain"), (wrap, cut, kind), True)
+                def bad(cut=cut, kind=kind):
+                    def g():
+                        for i, l in enumerate(full):
+                            if i == cut: raise ValueError("boom")
+                            yield l
+                        if cut == len(full): raise ValueError("boom")
+                    return g() if kind == "generator" else iter(list(g()) if False else g())
+                case = dict(what="memory partial", wrapped=wrap, cut=cut, kind=kind)
+                try:
+                    with cache.get_set("k", bad) as v: got = list(v)
+                    ctx.fail(["memory", "failed-getter-served"], "a getter whose stream failed after %d items was served as %r" % (cut, got), case); continue
+                except ValueError: pass
+                except Exception as e:
+                    ctx.fail(["memory", "failed-getter-other-error", errname(e)], "a failing getter surfaced as %s" % errname(e), case); continue
+                if "k" in cache:
+                    ctx.fail(["memory", "partial-entry-left"], "a getter whose stream failed after %d items left an entry behind" % cut, case); continue
+                calls = []
+                def good():
+                    calls.append(1); return iter(full)
+                try:
+                    with cache.get_set("k", good) as v: got = list(v)
+                except Exception as e:
+                    ctx.fail(["memory", "after-failure", errname(e)], "get_set after a failed getter raised %s" % errname(e), case); continue
+                if got != full or calls != [1]:
+                    ctx.fail(["memory", "after-failure-wrong"], "after a failed getter (cut %d) the next caller got %r (getter calls: %d)" % (cut, got, len(calls)), case)
+
 def run(ctx):
     os.makedirs(os.path.join(VERIF, ".work"), exist_ok=True)
     rng = ctx.rng
@@ -249,6 +285,7 @@ def run(ctx):
             case["_bflags"] = flags
     model_compare(ctx, reqs)
     disk_prefix_law(ctx)
+    memory_partial_law(ctx)
 
 def replay(r):
     print(json.dumps(r, indent=1, default=str)[:3000]); return 0
